@@ -27,6 +27,7 @@ import Flax.Proofs.GraphTotal
 import Flax.Proofs.GraphFirst
 import Flax.Proofs.GraphPopFirst
 import Flax.Proofs.GraphPopAny
+import Flax.Proofs.GraphPopOrder
 import Flax.Proofs.GraphUpdateValues
 
 namespace Flax.C03
@@ -442,6 +443,29 @@ theorem update_values (h : Heap) (root : PVal) (s : STree) (h' : Heap) (hu : upd
 example : (update exHeapU (.ref 0) (.node [(.str "w", .leaf (.vstate ["Param"] 7 [])), (.str "v", .leaf (.arr 9))])).toOption =
     some [.node "A" [(.str "w", .ref 1), (.str "v", .ref 1)], .var ["Param"] 9 []] := by decide
 
+/-- **a raw leaf at the path of an array attribute rewrites exactly that attribute and nothing else**: for
+any path `p` reaching a graph node `a0` whose attribute `k` holds an array, updating with the state that
+has the single raw leaf `d` at `p ++ [k]` yields `setAttr h a0 k (array d)` — and `setAttr_spec` /
+`lookupKV_setKV` / `setKV_keys` say what that is: same heap length, every other object untouched, `a0`
+keeps its class, its keys in order and every other attribute value; only the slot `k` now holds `d`. -/
+theorem update_sets_array (h : Heap) (root : PVal) (p : Path) (k : Key) (a0 : Addr) (cls : String)
+    (attrs : List (Key × PVal)) (d0 d : Data)
+    (hr : resolve h root p = some (.ref a0)) (hg : h[a0]? = some (.node cls attrs))
+    (hl : lookupKV k attrs = some (.array d0)) :
+    update h root (chain (p ++ [k]) (.arr d)) = .ok (setAttr h a0 k (.array d)) ∧
+    (setAttr h a0 k (.array d)).length = h.length ∧
+    (setAttr h a0 k (.array d))[a0]? = some (.node cls (setKV k (.array d) attrs)) ∧
+    (∀ (b : Nat), b ≠ a0 → (setAttr h a0 k (.array d))[b]? = h[b]?) ∧
+    (setKV k (PVal.array d) attrs).map (·.1) = attrs.map (·.1) ∧
+    ∀ k', lookupKV k' (setKV k (PVal.array d) attrs) = if k' = k then some (.array d) else lookupKV k' attrs := by
+  obtain ⟨s1, s2, s3⟩ := setAttr_spec k (.array d) hg
+  refine ⟨update_array_chain h k d p root a0 cls attrs d0 hr hg hl, s1, s2, s3, setKV_keys k _ attrs, ?_⟩
+  intro k'
+  rw [lookupKV_setKV]
+  by_cases e : k' = k
+  · simp [e, hl]
+  · simp [e]
+
 /-- a Variable addressed by a one-leaf state takes the new value and metadata, in place -/
 example : (update exHeapU (.ref 0) (.node [(.str "w", .leaf (.vstate ["Param"] 7 []))])).toOption =
     some [.node "A" [(.str "w", .ref 1), (.str "v", .ref 1)], .var ["Param"] 7 []] := by decide
@@ -490,6 +514,32 @@ reference met *after* it is removed even though no filter matches there (`pop_pa
 theorem pop_any_filters (preds : List NFilter) (h : Heap) (root : PVal) (hw : Heap.wf h = true) (hrw : root.wf = true)
     (h' : Heap) (outs : List FlatState) (hp : pop true h root preds = .ok (h', outs)) : PopAny preds h root h' outs :=
   pop_any_aux h root hw hrw h' outs hp
+
+/-- **`pop` with arbitrary filters, in DFS order** (`PopOrdered`).  `enc` is the encounter sequence of the
+DFS of `flatten` (`trace`), which is also the order in which `_graph_pop` meets references; an encounter
+`(b, q)` *matches* when some filter holds for the Variable `b` at path `q` (`encMatches`).  Then: every
+returned entry sits at the FIRST matching encounter of its Variable (`firstM`); every Variable that has a
+matching encounter is returned; and the reference of every encounter at or after a matching encounter of
+the same Variable no longer resolves to it in the heap `pop` leaves behind — including later encounters
+at which no filter matches.  (References met *before* the first matching encounter are kept:
+`pop_path_filter_keeps_earlier_alias`; so "unreachable afterwards" is exactly `pop_exact`'s
+path-independent case.) -/
+theorem pop_first_match (preds : List NFilter) (h : Heap) (root : PVal) (hw : Heap.wf h = true) (hrw : root.wf = true)
+    (h' : Heap) (outs : List FlatState) (hp : pop true h root preds = .ok (h', outs))
+    (gd : GDef) (ls : FlatState) (idx : RefIndex) (hf : flatten h root = .ok (gd, ls, idx)) :
+    ∃ enc reg, trace h root = .ok (enc, reg, idx) ∧ (∀ e ∈ enc, resolve h root e.2 = some (.ref e.1)) ∧
+      PopOrdered preds h root h' outs enc :=
+  pop_ordered_aux h root hw hrw h' outs hp gd ls idx hf
+
+/-- non-vacuity: three aliases `a`, `b`, `c` of one Variable, filter `PathContains('b')`: the encounters are
+`a`, `b`, `c`; the first matching one is `b`; `a` is kept, `b` and `c` are removed -/
+example :
+    let h : Heap := [.node "M" [(.str "a", .ref 1), (.str "b", .ref 1), (.str "c", .ref 1)], .var ["Param"] 1 []]
+    (trace h (.ref 0)).toOption.map (·.1) = some [(0, []), (1, [.str "a"]), (1, [.str "b"]), (1, [.str "c"])] ∧
+    firstM [.pathContains "$b"] h [(0, []), (1, [.str "a"]), (1, [.str "b"]), (1, [.str "c"])] 1 = some [.str "b"] ∧
+    (pop true h (.ref 0) [.pathContains "$b"]).toOption =
+      some ([.node "M" [(.str "a", .ref 1)], .var ["Param"] 1 []], [[([.str "b"], .vstate ["Param"] 1 [])]]) := by
+  decide
 
 /-- `m.a = m.b = v`, `pop(m, PathContains('b'))`: no match at the first encounter `('a',)`, popped at
 `('b',)`; the earlier alias `a` stays -/
@@ -585,5 +635,9 @@ example : (pop true exHeapP (.ref 0) [.ofType "Intermediate"]).toOption =
     some ([ .node "A" [(.str "child", .ref 1), (.str "w", .ref 3)], .node "B" [(.str "parent", .ref 0)],
             .var ["Intermediate", "Variable"] 5 [], .var ["Param", "Variable"] 7 [] ],
           [[([.str "child", .str "i"], .vstate ["Intermediate", "Variable"] 5 [])]]) := by decide
+
+/-- non-vacuity: `m.child.arr = array(9)` rewritten through the path `('child', 'arr')` -/
+example : (update exHeap (.ref 0) (chain [.str "child", .str "arr"] (.arr 11))).toOption.map (·[1]?) =
+    some (some (.node "B" [(.str "parent", .ref 0), (.str "w", .ref 2), (.str "arr", .array 11)])) := by decide
 
 end Flax.C03
